@@ -144,6 +144,12 @@ def configs(tier):
                             continue
                         out.append(("B", cfg(op, 3, 2, wt, fail=fail, e2w=e2w,
                                              on_content=True)))
+                        # contents paired with their FileInfo while some
+                        # files yield nothing
+                        if e2w and wt == "thread":
+                            out.append(("B", cfg(op, 3, 2, wt, fail=fail,
+                                                 e2w=e2w, on_content=True,
+                                                 return_info=True)))
     for op in ("map", "imap"):
         for sel in ("period", "files", "files_rev", "bundled"):
             for func, bad in [("identity", None), ("none", None),
